@@ -48,11 +48,18 @@ def check(arr, tol=None):
     fin = np.isfinite(arr)
     if not np.array_equal(np.isnan(arr), np.isnan(back.astype(float))) or not np.array_equal(np.isinf(arr), np.isinf(back.astype(float))):
         return f"non-finite values altered: decoded {back.tolist()} via {encs}"
-    err = np.abs(back[fin].astype(np.float64) - arr[fin].astype(np.float64))
-    # float32 inputs carry their own representation error
-    eps = np.finfo(arr.dtype).eps
-    if np.any(err > (TOLV + 4 * eps) * np.abs(arr[fin].astype(np.float64)) + 1e-300):
-        return f"decoded {back.tolist()} (error {err.max():.3g}) via {encs}"
+    if back.dtype != arr.dtype and not np.can_cast(arr.dtype, back.dtype, "safe"):
+        return f"decoded as {back.dtype}, wrote {arr.dtype} via {encs}"          # (float16 comes back as float32: lossless widening)
+    x = arr[fin].astype(np.float64)
+    err = np.abs(back[fin].astype(np.float64) - x)
+    # the decoded value is a float of the array's own type: the nearest one to some real number within the
+    # tolerance of x.  Hence |decoded - x| <= tol*|x| + ulp(x)/2, and where the tolerance is finer than half an
+    # ulp the value must come back exactly.
+    half_ulp = np.spacing(np.abs(arr[fin].astype(back.dtype))).astype(np.float64) / 2
+    allowed = np.where(TOLV * np.abs(x) < half_ulp * (1 - 1e-9), 0.0, TOLV * np.abs(x) * (1 + 1e-9) + half_ulp)
+    if np.any(err > allowed):
+        k = int(np.argmax(err - allowed))
+        return (f"decoded {back[fin][k]!r} for {arr[fin][k]!r} (error {err[k]:.3g}, allowed {allowed[k]:.3g} at float_tolerance={TOLV}) via {encs}")
     return None
 
 
@@ -87,6 +94,28 @@ for dt in (np.float32, np.float64):
                 for tol in (1e-2, 1e-6):
                     R.check("compress() round trip within tolerance; non-finite kept or rejected", f"compress {dt.__name__} tiny magnitudes",
                             {"dtype": dt.__name__, "array": f"{[repr(v) for v in vals[:2]]} * {n}", "tolerance": tol}, lambda arr=arr, tol=tol: check(arr, tol))
+# tolerances finer than the precision of a narrow float type: the values must come back exactly
+NARROW = {np.float16: [210.5, 0.1, 3.14, 1000.0, 0.333], np.float32: [1815.854, 0.1, 3.1415927, 123456.79, 1e-3, 7.0000005]}
+for dt, vals in NARROW.items():
+    for v in vals:
+        for w in (vals[0], 1.0):
+            for n in (3, 40):
+                for tol in (1e-2, 1e-4, 1e-6, 1e-8, 1e-12):
+                    arr = np.array([v, w] * n, dtype=dt)
+                    R.check("compress() round trip within tolerance; non-finite kept or rejected", f"compress {dt.__name__} tolerance vs precision",
+                            {"dtype": dt.__name__, "array": f"[{v}, {w}] * {n}", "tolerance": tol}, lambda arr=arr, tol=tol: check(arr, tol))
+# compressible columns of decimal-looking values (few distinct values, repeated) in single / half precision at
+# tolerances down to below the precision of the type
+_prng = np.random.default_rng(R.args.seed + 55)
+for dt, lo_hi, dec in ((np.float32, (1000, 2000), 3), (np.float32, (-50, 50), 3), (np.float32, (0.001, 1), 5), (np.float32, (1e4, 9e4), 2),
+                       (np.float16, (1, 200), 1), (np.float16, (0.01, 1), 2)):
+    for rep in range(3 if R.thorough else 2):
+        base = np.round(_prng.uniform(lo_hi[0], lo_hi[1], 20), dec).astype(dt)
+        for layout, arr in (("tiled", np.tile(base, 25)), ("runs", np.repeat(base, 25)), ("sorted", np.sort(np.tile(base, 5)))):
+          for tol in (1e-4, 1e-6, 1e-7, 1e-8, 1e-10):
+            R.check("compress() round trip within tolerance; non-finite kept or rejected", f"compress {dt.__name__} repeated decimal values",
+                    {"dtype": dt.__name__, "range": list(lo_hi), "decimals": dec, "draw": rep, "layout": layout, "tolerance": tol, "values": [repr(x) for x in base[:4]]},
+                    lambda arr=arr, tol=tol: check(arr, tol))
 # long arrays (so that the fixed-point chain wins on size) with one value at the edge of the 32-bit fixed-point range
 for dt in (np.float32, np.float64):
     for edge in (21474836.0, -21474836.0, 2147483.6, 214748.36, 2147483647.0, 2.1474836e9, 16777217.0, 1e15):
@@ -249,6 +278,27 @@ for dt in INTS:
                 continue        # integer packing takes 32-bit input; other widths enter through a preceding encoding
             R.check("decode(encode(x)) == x for integer arrays (or the value is rejected)", f"{name} {dt.__name__}",
                     {"dtype": dt.__name__, "array": arr.tolist(), "chain": name}, lambda arr=arr, mk=mk: chain_roundtrip(arr, mk))
+
+# 64-bit input: the format has no 64-bit integers (TypeCode maps int64 -> int32); values beyond 32 bit must be
+# rejected or kept, never silently altered
+WIDE64 = {np.int64: [[0, 5, -7], [0, 2 ** 40, 5], [2 ** 40, 2 ** 40 + 1], [-2 ** 31 - 1, 0], [2 ** 31, 1], [2 ** 31 - 1, -2 ** 31]],
+          np.uint64: [[0, 5, 7], [2 ** 63, 2 ** 63 + 5], [2 ** 32, 0], [2 ** 32 - 1, 0]]}
+for dt, arrs in WIDE64.items():
+    for a in arrs:
+        arr = np.array(a, dtype=dt)
+        for name, mk in INT_CHAINS.items():
+            def wide_case(arr=arr, mk=mk, name=name):
+                r = chain_roundtrip(arr, mk)
+                first = name.split("+")[0]
+                if r and first in ("Delta", "IntegerPacking1", "IntegerPacking2") and isinstance(r, str) and r.startswith("decoded"):
+                    # known finding: these two encodings convert their 64-bit input to 32 bit without a range check
+                    # (the others go through _safe_cast and refuse); only inputs that really exceed 32 bit are classified
+                    diffs = np.diff(arr.astype(object), prepend=0)
+                    if any(abs(int(d)) >= 2 ** 31 for d in diffs) or any(not (-2 ** 31 <= int(v) < 2 ** 31) for v in arr.astype(object)):
+                        return "64-bit input truncated", f"{first}: " + r
+                return r
+            R.check("decode(encode(x)) == x for integer arrays (or the value is rejected)", f"{name} {dt.__name__}",
+                    {"dtype": dt.__name__, "array": a, "chain": name}, wide_case)
 
 FLOAT_ARRS = [[], [0.0], [1.5, -2.5, 1.25], [123.456, 123.457, -0.001], [1e-3] * 4, [999999.0, -999999.0]]
 for dt in (np.float32, np.float64):
